@@ -81,6 +81,19 @@ CHECKS = {
              "htc > 0 on assignment. " + ENGINE_NOTE,
         technique="solver-based path-exhaustive symbolic execution of the real code (z3), operation sequences as solver choices",
     ),
+    "C20": dict(
+        category="model_checking",
+        text="HX_Eff, HX_NTU, MultiPassEff/NTU, Coth and the two LMTD functions are executed symbolically with NTU, capacity ratio, "
+             "effectiveness and end differences as z3 reals; exp/log are uninterpreted functions under instantiated true axioms with "
+             "syntactic inverse rules, so each round trip, the [0,1] range, monotonicity in NTU, the c = 0 limit, label-form "
+             "independence (member vs text, never the fall-through / -1 sentinel), LMTD bracket, symmetry and refusal become "
+             "polynomial/UF queries that z3 decides unsat or answers with a concrete (NTU, c) that is replayed on the float code.",
+        design_ref="5/C20",
+        note="Closed-form arrangements only for round trips (cross-flow unmixed series and the secant inversion are outside); "
+             "'never exceeds counter flow' needs convexity of exp and is outside; shell-and-tube: dispatch and range only. "
+             "Axioms listed verbatim in the evidence. " + ENGINE_NOTE,
+        technique="solver-based symbolic execution of the real code with exp/log as uninterpreted functions + axioms (z3 NRA/UF)",
+    ),
 }
 
 NOT_YET = {}
